@@ -212,6 +212,77 @@ Definition lstep (n : nat) (bm : list nid) (be : N) (σ : sys) (e : sys_event) (
 Definition linit (σ : sys) : Prop :=
   sinit2 σ /\ forall s, In s (sy_nodes σ) -> p_log (n_p s) = [] /\ p_snap (n_p s) = None /\ n_conf s = None.
 
+(* a delivery that makes the node emit anything leaves it in the term of the delivered message *)
+Lemma handle_msg_term s m s' :
+  n_msgs s = [] -> handle_msg s m = Ret s' -> n_msgs s' = [] \/ p_term (n_p s') = m_term m.
+Proof.
+  intro Hm. unfold handle_msg.
+  match goal with |- (if ?c then _ else _) = _ -> _ => destruct c end; [intro H; inversion H; subst; left; auto|].
+  match goal with |- (if ?c then _ else _) = _ -> _ => destruct c end; [intro H; inversion H; subst; left; auto|].
+  assert (H1 : forall s1, (if guid_get (m_from m) (p_guids (n_p s)) =? 0 then do_mut (MSetGuid (m_from m) (m_fromg m)) s else Ret s) = Ret s1 ->
+               n_msgs s1 = []).
+  { intros s1. destruct (guid_get (m_from m) (p_guids (n_p s)) =? 0).
+    - unfold do_mut. destruct (negb (n_budget s =? 0) && (n_budget s =? n_cnt s + 1)); [discriminate|].
+      intro E. inversion E. simpl. exact Hm.
+    - intro E. inversion E. subst. exact Hm. }
+  destruct (if guid_get (m_from m) (p_guids (n_p s)) =? 0 then do_mut (MSetGuid (m_from m) (m_fromg m)) s else Ret s) as [s1 | |];
+    simpl; try discriminate.
+  specialize (H1 s1 eq_refl).
+  match goal with |- (if ?c then _ else _) = _ -> _ => destruct c end; [intro H; inversion H; subst; left; auto|].
+  destruct (m_term m <? p_term (n_p s1)) eqn:Elt; [intro H; inversion H; subst; left; auto|].
+  assert (Hrole : forall s2, n_msgs s2 = [] -> p_term (n_p s2) = m_term m -> handle_by_role s2 m = Ret s' ->
+                    p_term (n_p s') = m_term m).
+  { intros s2 M2 T2. unfold handle_by_role. destruct (n_role s2).
+    - intro H. apply handle_follower_sum in H; auto. destruct H as [_ [T _]]. congruence.
+    - intro H. apply handle_candidate_sum in H. destruct H as [T _]. congruence.
+    - intro H. pose proof (kx_handle_leader s2 m) as K. rewrite H in K. simpl in K. destruct K as [T _]. congruence. }
+  destruct (p_term (n_p s1) <? m_term m) eqn:Egt.
+  - assert (H2 : forall s2,
+               (match m_body m with
+                | AppEnts _ _ _ _ | InstallSnap _ _ _ =>
+                    s'0 <- do_mut (MSaveState (m_from m) (m_term m)) s1 ;; Ret (become_follower s'0 (m_from m))
+                | VoteReq _ _ => s'0 <- do_mut (MSaveState 0 (m_term m)) s1 ;; Ret (become_follower s'0 0)
+                | _ => Fatal F_RESP_HIGHER_TERM
+                end) = Ret s2 -> n_msgs s2 = [] /\ p_term (n_p s2) = m_term m).
+    { intros s2. destruct (m_body m); try discriminate;
+        unfold do_mut; destruct (negb (n_budget s1 =? 0) && (n_budget s1 =? n_cnt s1 + 1)); simpl; try discriminate;
+        intro X; inversion X; simpl; split; auto. }
+    match goal with |- bind ?a _ = _ -> _ => destruct a as [s2 | |] end; simpl; try discriminate.
+    destruct (H2 s2 eq_refl) as [M2 T2]. intro H. right. eapply Hrole; eauto.
+  - apply N.ltb_ge in Elt, Egt. simpl. intro H. right. eapply Hrole; eauto. lia.
+Qed.
+
+Lemma deliver_term s m k crashed st s' :
+  run_event_crash (settle s) (EDeliver m) k = Ret (crashed, st, s') -> n_msgs s' = [] \/ p_term (n_p s') = m_term m.
+Proof.
+  unfold run_event_crash. simpl. unfold wrap0.
+  destruct (handle_msg (with_budget (settle s) k) m) as [x | c | p] eqn:E; simpl; try discriminate.
+  - intro H. inversion H. subst. apply handle_msg_term in E; [| reflexivity]. simpl. exact E.
+  - pose proof (new_core_pext (n_id s) (n_cfg s) p) as Q.
+    destruct (new_core (n_id s) (n_cfg s) p); simpl in *; try discriminate.
+    intro H. inversion H. subst. left. tauto.
+Qed.
+
+
+(* ---------------------------------------------------------------- what the system-level proofs use of one step of one node *)
+Record nstep (s : node) (ev : event) (k : N) (s' : node) : Prop := {
+  ns_id : n_id s' = n_id s;
+  ns_pext : pext (n_p s) (n_p s');
+  ns_msgs : msgs_ok s';
+  ns_esum : esum s s' (ev_msg ev);
+  ns_term : forall m, ev = EDeliver m -> n_msgs s' = [] \/ p_term (n_p s') = m_term m;
+  ns_inv : inv (with_budget (settle s) k) (inp_of ev) (boot_of ev) (rt_of ev) (vq_of ev) (lq_of s) (dc_of ev) (rsp_of ev) s'
+}.
+
+Lemma nstep_of_run s ev k crashed st s' :
+  base s -> evok4 ev -> run_event_crash (settle s) ev k = Ret (crashed, st, s') -> nstep s ev k s'.
+Proof.
+  intros Hb He Hrun. destruct (step_facts _ _ _ _ _ _ Hrun) as [Hid [Hp [Hm Hs]]].
+  constructor; auto.
+  - intros m Em. subst ev. eapply deliver_term; eauto.
+  - eapply run_event_crash_lm; eauto.
+Qed.
+
 Section Inv.
   Variables (bm : list nid) (be : N).
   Let bootE := boot_entry bm be.
@@ -283,21 +354,22 @@ Section Inv.
     {| sy_nodes := put_node s' (sy_nodes σ); sy_soup := sy_soup σ ++ out_msgs s';
        sy_cast := sy_cast σ ++ cast_of s'; sy_hist := sy_hist σ ++ hist_of s' |}.
 
-  Lemma ginv_step_rec n σ G i s ev k crashed st s' :
+  Lemma put_node_length x c : length (put_node x c) = length c.
+  Proof. rewrite <- (map_length n_id), put_node_ids, map_length. reflexivity. Qed.
+
+  Lemma ginv_step_abs n σ G i s ev k s' :
     length (sy_nodes σ) = n -> ginv σ G ->
     get_node i (sy_nodes σ) = Some s -> (forall m, ev = EDeliver m -> In m (sy_soup σ) /\ m_to m <> 0) ->
-    evok2 n ev -> evres bm be ev -> run_event_crash (settle s) ev k = Ret (crashed, st, s') ->
+    evres bm be ev -> nstep s ev k s' ->
+    Election.inv (map n_id (sy_nodes σ)) (step_sys σ s') -> inv2 n (step_sys σ s') ->
     ginv (step_sys σ s') (G ++ rec_of s s').
   Proof.
-    intros Hlen GI Gs Hdel Hev Hres Hrun.
-    assert (Hst : sstep2 n σ (i, ev, k) (step_sys σ s')) by (eapply SStep2; eauto).
-    pose proof (g_i2 σ G GI) as I2. rewrite Hlen in I2.
-    destruct (sstep2_sstep n _ _ _ Hlen I2 Hst) as [Hss [I2' Hlen']].
+    intros Hlen GI Gs Hdel Hres NS El0 I2'.
+    assert (Hlen' : length (put_node s' (sy_nodes σ)) = n) by (rewrite put_node_length; exact Hlen).
     assert (Hids : map n_id (sy_nodes (step_sys σ s')) = map n_id (sy_nodes σ)) by (simpl; apply put_node_ids).
-    assert (El' : Election.inv (map n_id (sy_nodes (step_sys σ s'))) (step_sys σ s')).
-    { rewrite Hids. eapply Election.inv_step; [apply (g_el σ G GI) | exact Hss]. }
-    clear Hss Hst. unfold step_sys in *. simpl in Hids, El', I2', Hlen'.
-    destruct (step_facts _ _ _ _ _ _ Hrun) as [Hid [Hp [Hm He]]].
+    assert (El' : Election.inv (map n_id (sy_nodes (step_sys σ s'))) (step_sys σ s')) by (rewrite Hids; exact El0).
+    clear El0. unfold step_sys in *. simpl in Hids, El', I2'.
+    destruct NS as [Hid Hp Hm He Hdt NI].
     destruct (get_node_in _ _ _ Gs) as [Gin Gid].
     assert (Hi : n_id s' = i) by congruence.
     assert (Gs' : get_node i (put_node s' (sy_nodes σ)) = Some s').
@@ -310,12 +382,6 @@ Section Inv.
       - subst j. rewrite Gs' in Hx. inversion Hx. auto.
       - rewrite Go in Hx; auto. }
     assert (Hnz : n_id s <> 0) by (eapply (i_nz _ σ (g_el σ G GI)); eauto).
-    assert (Hev4 : evok4 ev).
-    { destruct ev; simpl in *; auto; try contradiction.
-      destruct (Hdel m eq_refl) as [Min _]. pose proof (g_msgs σ G GI m Min) as Mk. unfold msg_ok3 in Mk.
-      destruct (m_body m); auto. destruct ents as [es |]; auto. destruct Mk as [j [l1 [X [Y Z]]]]. split; auto.
-      eapply slice_wf; eauto. eapply (g_rec_wf σ G GI); eauto. }
-    pose proof (run_event_crash_lm s ev k crashed st s' (g_base σ G GI i s Gs) Hev4 Hrun) as NI.
     set (s0' := with_budget (settle s) k) in NI.
     pose proof (v_snap _ _ _ _ _ _ _ _ _ NI) as N_snap. pose proof (v_wf _ _ _ _ _ _ _ _ _ NI) as N_wf.
     pose proof (v_n1 _ _ _ _ _ _ _ _ _ NI) as N_n1. pose proof (v_n2 _ _ _ _ _ _ _ _ _ NI) as N_n2.
@@ -477,6 +543,48 @@ Section Inv.
     - intros j x Hx. destruct (Gcase j x Hx) as [[_ E] | [_ E]].
       + subst x. exact TBs'.
       + eapply (g_tb_node σ G GI); eauto.
+  Qed.
+
+  Lemma ginv_evok4 σ G ev :
+    ginv σ G -> (forall m, ev = EDeliver m -> In m (sy_soup σ) /\ m_to m <> 0) -> evok2 (length (sy_nodes σ)) ev -> evres bm be ev -> evok4 ev.
+  Proof.
+    intros GI Hdel Hev Hres. destruct ev; simpl in *; auto; try contradiction.
+    destruct (Hdel m eq_refl) as [Min _]. pose proof (g_msgs σ G GI m Min) as Mk. unfold msg_ok3 in Mk.
+    destruct (m_body m); auto. destruct ents as [es |]; auto. destruct Mk as [j [l1 [X [Y Z]]]]. split; auto.
+    eapply slice_wf; eauto. eapply (g_rec_wf σ G GI); eauto.
+  Qed.
+
+  Lemma ginv_step_rec n σ G i s ev k crashed st s' :
+    length (sy_nodes σ) = n -> ginv σ G ->
+    get_node i (sy_nodes σ) = Some s -> (forall m, ev = EDeliver m -> In m (sy_soup σ) /\ m_to m <> 0) ->
+    evok2 n ev -> evres bm be ev -> run_event_crash (settle s) ev k = Ret (crashed, st, s') ->
+    ginv (step_sys σ s') (G ++ rec_of s s').
+  Proof.
+    intros Hlen GI Gs Hdel Hev Hres Hrun.
+    assert (Hst : sstep2 n σ (i, ev, k) (step_sys σ s')) by (eapply SStep2; eauto).
+    pose proof (g_i2 σ G GI) as I2. rewrite Hlen in I2.
+    destruct (sstep2_sstep n _ _ _ Hlen I2 Hst) as [Hss [I2' Hlen']].
+    assert (Hids : map n_id (sy_nodes (step_sys σ s')) = map n_id (sy_nodes σ)) by (simpl; apply put_node_ids).
+    assert (El' : Election.inv (map n_id (sy_nodes σ)) (step_sys σ s')).
+    { rewrite <- Hids. rewrite Hids. eapply Election.inv_step; [apply (g_el σ G GI) | exact Hss]. }
+    assert (Hev4 : evok4 ev) by (eapply ginv_evok4; eauto; rewrite Hlen; exact Hev).
+    eapply ginv_step_abs; eauto.
+    eapply nstep_of_run; eauto. apply (g_base σ G GI i s Gs).
+  Qed.
+
+  Lemma abs_of_run n σ G i s ev k crashed st s' :
+    length (sy_nodes σ) = n -> ginv σ G ->
+    get_node i (sy_nodes σ) = Some s -> (forall m, ev = EDeliver m -> In m (sy_soup σ) /\ m_to m <> 0) ->
+    evok2 n ev -> evres bm be ev -> run_event_crash (settle s) ev k = Ret (crashed, st, s') ->
+    nstep s ev k s' /\ Election.inv (map n_id (sy_nodes σ)) (step_sys σ s') /\ inv2 n (step_sys σ s').
+  Proof.
+    intros Hlen GI Gs Hdel Hev Hres Hrun.
+    assert (Hst : sstep2 n σ (i, ev, k) (step_sys σ s')) by (eapply SStep2; eauto).
+    pose proof (g_i2 σ G GI) as I2. rewrite Hlen in I2.
+    destruct (sstep2_sstep n _ _ _ Hlen I2 Hst) as [Hss [I2' Hlen']].
+    assert (Hev4 : evok4 ev) by (eapply ginv_evok4; eauto; rewrite Hlen; exact Hev).
+    split; [eapply nstep_of_run; eauto; apply (g_base σ G GI i s Gs)|]. split; [| exact I2'].
+    eapply Election.inv_step; [apply (g_el σ G GI) | exact Hss].
   Qed.
 
   Lemma ginv_step n σ G e σ' :
